@@ -124,13 +124,13 @@ def pct_decode(tier):
 def pct_roundtrip(tier):
     o = []
     for form in (1, 0):
-        for n in lens(tier, (1, 2, 3), range(0, 5)):
+        for n in lens(tier, (1, 2) if form else (1, 2, 3), range(0, 4) if form else range(0, 5)):
             d = {"N": n}
             if form:
                 d["FORM"] = 1
             o.append(Obl(f"pct_roundtrip_{'form' if form else 'url'}_n{n}", "pct_roundtrip.c",
                          [U(["vk_percent_encode", "vk_percent_decode", "vk_form_decode"])], defs=d, unwind=3 * n + 2,
-                         witness=(n >= 1), mem_gb=10, timeout=(150 if tier == Q else 900), weight=4))
+                         witness=(n >= 1), mem_gb=(16 if form else 10), timeout=((300 if form else 150) if tier == Q else 1500), weight=4))
     return o
 
 
@@ -188,7 +188,7 @@ STEP_OPS = [
     ("ed_authority_without_guard", "vk_st_authority_without_guard", (0,), (0,), {"OP_EDIT": 9}),
     ("ed_update_pathname", "vk_st_update_base_pathname", (0, 3), (0, 1, 2, 3, 4), {"OP_EDIT": 10}),
     ("ed_append_pathname", "vk_st_append_base_pathname", (2,), (0, 1, 2, 3), {"OP_EDIT": 11}),
-    ("ed_update_hash", "vk_st_update_unencoded_base_hash", (0, 2), (0, 1, 2, 3), {"OP_EDIT": 12}),
+    ("ed_update_hash", "vk_st_update_unencoded_base_hash", (0, 1), (0, 1, 2), {"OP_EDIT": 12}),
     ("ed_set_scheme", "vk_st_set_scheme", (2, 4), (1, 2, 3, 4, 5), {"OP_EDIT": 13}),
 ]
 EDITOR_OPS = tuple(x[0] for x in STEP_OPS if x[0].startswith("ed_"))
@@ -307,7 +307,7 @@ def inv_lemma(tier):
 
 
 # quick-tier selections (each is decided in < ~4 min; the heavier setters are thorough-tier)
-PICK_C07 = {("ed_update_hash", 2), ("ed_update_port", 0), ("ed_set_scheme", 2), ("clear_port", 0), ("clear_search", 0), ("clear_hash", 0), ("clear_pathname", 0), ("update_search", 2), ("set_port", 2), ("set_username", 1)}
+PICK_C07 = {("ed_update_hash", 1), ("ed_update_port", 0), ("ed_set_scheme", 2), ("clear_port", 0), ("clear_search", 0), ("clear_hash", 0), ("clear_pathname", 0), ("update_search", 2), ("set_port", 2), ("set_username", 1)}
 PICK_C03 = {("ed_update_username", 2), ("ed_update_password", 0), ("ed_update_pathname", 3), ("set_username", 0), ("set_username", 1), ("set_password", 1), ("set_port", 0), ("set_port", 2), ("update_search", 2)}
 PICK_C09 = {("set_username", 1), ("set_password", 1), ("set_port", 2)}
 PICK_C19 = {("ed_update_hostname", 2), ("ed_authority_without_guard", 0), ("ed_clear_hostname", 0), ("ed_clear_password", 0), ("set_port", 2), ("set_password", 1), ("clear_port", 0)}
@@ -416,10 +416,10 @@ def sortcmp(tier):
 
 def prop_C12(tier):
     o = [x for x in pct_decode(tier) if "form" in x.name]
-    for n in lens(tier, (1, 2, 3), range(0, 5)):
+    for n in lens(tier, (1, 2), range(0, 4)):
         o.append(Obl(f"form_roundtrip_plus_n{n}", "pct_roundtrip.c", [U(["vk_percent_encode", "vk_percent_decode", "vk_form_decode"])],
-                     defs={"N": n, "FORM": 1, "PLUS": 1}, unwind=3 * n + 4, witness=(n >= 1), mem_gb=10,
-                     timeout=(200 if tier == Q else 1200), weight=4))
+                     defs={"N": n, "FORM": 1, "PLUS": 1}, unwind=3 * n + 4, witness=(n >= 1), mem_gb=16,
+                     timeout=(300 if tier == Q else 1500), weight=4))
     return o + sortcmp(tier)
 
 
